@@ -74,23 +74,27 @@ class RobotsTxtChecker(object):
             request = Request(url)
 
             session = self._web_client.session(request)
-            while not session.done():
-                if session.next_request().url_info.scheme not in (
-                        'http', 'https'):
-                    # Redirected to something that is not a web URL
-                    self._accept_as_blank(url_info)
 
-                    return
+            # The session gives its connection back to the pool on exit,
+            # also when the fetch fails.
+            with session:
+                while not session.done():
+                    if session.next_request().url_info.scheme not in (
+                            'http', 'https'):
+                        # Redirected to something that is not a web URL
+                        self._accept_as_blank(url_info)
 
-                wpull.util.truncate_file(file.name)
+                        return
 
-                try:
-                    response = yield from session.start()
-                    yield from session.download(file=file)
-                except ProtocolError:
-                    self._accept_as_blank(url_info)
+                    wpull.util.truncate_file(file.name)
 
-                    return
+                    try:
+                        response = yield from session.start()
+                        yield from session.download(file=file)
+                    except ProtocolError:
+                        self._accept_as_blank(url_info)
+
+                        return
 
             status_code = response.status_code
 
